@@ -263,6 +263,40 @@ CHECKS = {
 NOT_YET = 'check not built yet (build in progress, see DESIGN.md section 10)'
 
 
+# what later rounds (seeded changes, thorough runs, mutation sweep) added to each check
+EXTRA = {
+    'C01': 'Also: process() of programs ending in a conditional (descriptor and stats of process() = those of results()), inputs with '
+           'array/object cells and a step that edits nested values in place (a shallow copy between two lazily chained steps shows).',
+    'C02': 'Typing.tla also has concatenate restricted to the first / the last resource (descriptors and streams must stay paired '
+           'around the target).',
+    'C03': 'Also: in-place edits by a step AFTER the dumper must not reach the written file.',
+    'C04': 'Also: the failing row lies in a resource that a later delete_resource / concatenate / join removes or behind a duplicate twin; '
+           'a bare CastError with an empty error list; upstream failures inside parallelize under 30/300 cooperative schedules '
+           '(known finding C04-parallelize-upstream-failure: only that exact deviation is accepted).',
+    'C05': 'Also: the counts every dumper reports (per resource, package total, stats) incl. resources that are empty at the dumper; '
+           'a failed read-back is a violation; failed runs (source / later step raising at row k or at the end) must not leave an '
+           'incomplete stream published under the final name of stream / checkpoint.',
+    'C06': 'load() is also driven with limit_rows far above / at half of the file length: the read-ahead must not change.',
+    'C08': 'Also: a third run after the follow-up run must resume and reproduce the result; no .active file may survive a successful run.',
+    'C10': 'Also: aliasing programs (duplicate twins, a field added to all and retyped in one, a twin keeps its rows when the original is '
+           'deleted by every selector form) and the falsy selector forms 0 and [].',
+    'C11': 'Also: target sequences that revisit a key after an unmatched one; total value projection (datetimes with microseconds and offsets, '
+           'times, bools, Decimals under every aggregate incl. counters); joins with > 10 240 distinct keys (JoinBigTrace.tla).',
+    'C12': 'Also: keys that mix a formatted field with a plain numeric one; runs above the 10 240-entry cache in both directions in the quick tier.',
+    'C13': 'The known finding C13-dialect-is-sniffed is recognised by comparing with what the third-party reader (tabulator Stream, called '
+           'directly) yields for the file under its guessed dialect; any other difference is a violation.',
+    'C14': 'Also: a 5-argument handler that says drop for an earlier field and keep for a later one (custom5r); field-name patterns written as '
+           'top-level alternations (f1|f2) next to f[12]; set_type(transform=).',
+    'C15': 'Also several resources: exported cases and two-step programs (a field added to every resource by add_field / add_computed_field, '
+           'then renamed / deleted / retyped in some) under every resource-selector form; every resource must keep row keys = field list.',
+    'C16': 'Also: update_resource(name=, path=) rename family, sources() with colliding names, duplicate followed by a step restricted to one twin.',
+    'C18': 'Spec -> code: complete behaviours of the specification (TLC -simulate over ParallelizeSim.tla, 358/~5000 distinct scripts) are granted '
+           'operation by operation to the same unmodified bodies and the projected queue state is compared with the spec state after '
+           'every step; row_func failures (Fail constant); real multiprocessing runs with a queue recorder validated by ParallelizeTrace.',
+    'C20': 'Array/object cells carry falsy nested items (0, False, "", [], {}, null) and the empty array / object.',
+}
+
+
 def main():
     props = [json.loads(l) for l in open(os.path.join(VERIF, 'properties.jsonl'))]
     commits = subprocess.run(['git', '-C', '/repo', 'log', '--format=%h %s', '5adba0e..HEAD'], stdout=subprocess.PIPE, text=True).stdout.splitlines()
@@ -275,7 +309,7 @@ def main():
             'evidence_file': 'evidence/%s.json' % pid,
             'replay_cmd_template': 'bin/check %s --replay {path}' % pid,
             'engine': 'tlc+replay',
-            'level_claimed': {'category': c['level'], 'text': c['text'], 'design_ref': 'DESIGN.md section ' + c['design']},
+            'level_claimed': {'category': c['level'], 'text': c['text'] + (' ' + EXTRA[pid] if pid in EXTRA else ''), 'design_ref': 'DESIGN.md section ' + c['design']},
             'level_note': c['note'],
             'technique': c['technique'],
         })
